@@ -36,7 +36,7 @@ pub fn checks() -> Vec<Check> {
     let c29 = mk("C29", "Connection handlers know whether their peer is in a mesh", "C29: folding the JoinedMesh/LeftMesh notifications per connection, after every step some live connection of a peer believes 'in mesh' iff the peer is in at least one topic mesh (also across a second connection, the closing of the notified connection, unsubscribe and disconnect)");
     let mut c32 = mk("C32", "Gossipsub backoff is never shortened", "C32: the model keeps expiry(topic,peer) = max over all backoff updates (PRUNE sent with backoff b, PRUNE received with backoff b or none) of time+b; no peer enters a mesh and no GRAFT is accepted before expiry, a GRAFT before expiry is answered with PRUNE (and a score penalty when scoring is on); after the last expiry plus slack plus one rotation of the backoff wheel no pair is reported backed off any more. Second scenario drives the real BackoffStorage alone with random update/heartbeat/time sequences against the same model");
     c32.scenarios.push(Scenario::new("backoff-storage", 400, 40_000, backoff_storage).profiles(simkit::runner::NO_FAULTS));
-    let c35 = mk("C35", "Publishing without a subscription keeps its fanout peers", "C35: in every step that is not a heartbeat, each fanout peer of a topic that is still connected, still tracked as subscribed and not negatively scored is still in that topic's fanout set afterwards (publishing only adds)");
+    let c35 = mk("C35", "Publishing without a subscription keeps its fanout peers", "C35: in every step that is not a heartbeat, each fanout peer of a topic that is still connected, still tracked as subscribed and not negatively scored is still in that topic's fanout set afterwards (publishing only adds); in a heartbeat step an eligible fanout peer stays as long as the node published to the topic less than fanout_ttl ago");
     let c36 = mk("C36", "Subscription filters bound what peers can make us track", "C36: after every step each peer's tracked topic set (all_peers) is a subset of what the filter allows and within max_subscribed_topics; a SUBSCRIBE/UNSUBSCRIBE request is applied exactly as the reference filter says (requests over max_subscriptions_per_request or over the topic budget change nothing, accepted ones are applied)");
     c28.title = "Gossipsub mesh membership respects eligibility rules";
     vec![c28, c29, c32, c35, c36]
@@ -138,6 +138,7 @@ fn run<F: TopicSubscriptionFilter + Send + 'static>(filter: F, fm: FilterModel) 
     let flood = choose(3) == 0;
     let scoring = choose(2) == 0;
     let key = Keypair::generate_ed25519();
+    let fanout_ttl = Duration::from_secs([2u64, 3, 5, 8, 20, 35][choose(6)]);
     let mut cb = gs::ConfigBuilder::default();
     cb.heartbeat_interval(hb)
         .heartbeat_initial_delay(hb)
@@ -149,7 +150,7 @@ fn run<F: TopicSubscriptionFilter + Send + 'static>(filter: F, fm: FilterModel) 
         .unsubscribe_backoff(Duration::from_secs(unsub_backoff))
         .backoff_slack(slack)
         .flood_publish(flood)
-        .fanout_ttl(Duration::from_secs(5 + choose(30) as u64))
+        .fanout_ttl(fanout_ttl)
         .validation_mode(gs::ValidationMode::Permissive);
     if choose(3) == 0 {
         cb.do_px().prune_peers(3);
@@ -184,6 +185,8 @@ fn run<F: TopicSubscriptionFilter + Send + 'static>(filter: F, fm: FilterModel) 
     let mut belief: BTreeMap<(PeerId, ConnectionId), bool> = BTreeMap::new();
     let mut expiry: BTreeMap<(String, PeerId), Duration> = BTreeMap::new();
     let mut msg_no = 0u64;
+    // when the node last published to a topic through its fanout (not subscribed, no flood publishing)
+    let mut last_fanout_pub: BTreeMap<String, Duration> = BTreeMap::new();
     let steps = 20 + choose(100);
     let (mut refused, mut accepted, mut fanout_kept, mut rejected_reqs) = (0u32, 0u32, 0u32, 0u32);
 
@@ -347,6 +350,9 @@ fn run<F: TopicSubscriptionFilter + Send + 'static>(filter: F, fm: FilterModel) 
                 node.kick();
             }
             Op::Publish(t) => {
+                if !flood && !my_subs.contains(t) {
+                    last_fanout_pub.insert(t.clone(), elapsed());
+                }
                 msg_no += 1;
                 let _ = node.beh.borrow_mut().publish(gs::IdentTopic::new(t.clone()), format!("m{msg_no}").into_bytes());
                 node.kick();
@@ -498,6 +504,26 @@ fn run<F: TopicSubscriptionFilter + Send + 'static>(filter: F, fm: FilterModel) 
         }
 
         // ---- C35: fanout ---------------------------------------------------------------------
+        // A heartbeat may expire a fanout set, but only fanout_ttl after the last publish to the topic: while the node keeps
+        // publishing, the peers selected earlier stay.
+        if is_hb {
+            for (t, fb) in &before.fanout {
+                let Some(lp) = last_fanout_pub.get(t) else { continue };
+                if my_subs.contains(t) || *lp + fanout_ttl <= elapsed() {
+                    continue;
+                }
+                for m in fb {
+                    let connected = node.conns.get(m).map(|v| !v.is_empty()).unwrap_or(false);
+                    let tracked = after.tracked.get(m).map(|s| s.contains(t)).unwrap_or(false);
+                    let ok_score = after.score.get(m).map(|s| *s >= 0.0).unwrap_or(true) && before.score.get(m).map(|s| *s >= 0.0).unwrap_or(true);
+                    if connected && tracked && ok_score {
+                        let still = after.fanout.get(t).map(|s| s.contains(m)).unwrap_or(false);
+                        ensure!(still, "C35/fanout-expired-while-publishing", "fanout peer p{:?} of {t} is still eligible and the node last published to {t} {:?} ago (fanout_ttl {fanout_ttl:?}), yet a heartbeat removed it from the fanout set (before {:?} after {:?})", idx_of(&peers, m).map(|i| peers[i].idx), elapsed() - *lp, fb.len(), after.fanout.get(t).map(|s| s.len()).unwrap_or(0));
+                        probe("fanout-kept-across-heartbeat");
+                    }
+                }
+            }
+        }
         if !is_hb {
             for (t, fb) in &before.fanout {
                 if my_subs.contains(t) {
